@@ -85,12 +85,14 @@ Record vm := mkVm {
   running : bool;
   startCount : nat;
   H : nat;               (* sp + 1 *)
-  FP : nat
+  FP : nat;
+  ipok : bool            (* vm.ip is where Run() has to resume the main code: Run starts at vm.ip, and RunCode
+                            leaves the instruction pointer of its own, unrelated code there *)
 }.
 
 Definition new_vm (cfg : config) (e : env) : vm * env :=
-  if per_run_flag cfg then (mkVm None false 0 0 0, e)
-  else let (k, e') := alloc_cell e in (mkVm (Some k) false 0 0 0, e').
+  if per_run_flag cfg then (mkVm None false 0 0 0 true, e)
+  else let (k, e') := alloc_cell e in (mkVm (Some k) false 0 0 0 true, e').
 
 (* start(): refuse when running; count; empty the operand stack; give the run its flag; arm the watcher *)
 Definition start (cfg : config) (c : nat) (v : vm) (e : env) : option (vm * env) :=
@@ -102,7 +104,7 @@ Definition start (cfg : config) (c : nat) (v : vm) (e : env) : option (vm * env)
            | Some k => (k, clear_cell k e)
            | None => alloc_cell e
            end in
-    Some (mkVm (Some k) true (S (startCount v)) (if start_drops cfg then 0 else H v) (FP v), arm c k e1).
+    Some (mkVm (Some k) true (S (startCount v)) (if start_drops cfg then 0 else H v) (FP v) (ipok v), arm c k e1).
 
 (* ------------------------------------------------------------------ programs *)
 Inductive expr :=
@@ -272,6 +274,8 @@ Inductive outcome :=
 | OVal (z : option Z)     (* nil error; the value handed back (TOS, or the call's result) *)
 | OErr (e : ecls)         (* an error; EHost/EStack/EFrames are "panic: ..." errors from recover() *)
 | OStale                  (* nil error although the run was cut short: eval returned ctx.Err() == nil *)
+| OWild                   (* Run() started the main code at an instruction pointer left by a RunCode: it may
+                             execute nothing and return nil, start in the middle of an instruction, or panic *)
 | OBusy                   (* "vm is already running" *)
 | ODiverge.               (* the call never returns *)
 
@@ -288,13 +292,18 @@ Definition is_err (o : outcome) : bool := match o with OErr _ => true | _ => fal
 
 (* resetForNewCode (the part that matters here) *)
 Definition reset_vm (cfg : config) (v : vm) (e : env) : vm * env :=
-  (mkVm (halt v) (running v) (startCount v) 0 0,
+  (mkVm (halt v) (running v) (startCount v) 0 0 (ipok v),
    if reset_clears cfg then match halt v with Some k => clear_cell k e | None => e end else e).
 
 Definition run_inv (cfg : config) (e : env) (g : Z) (v : vm) (i : inv) : outcome * env * Z * vm :=
   match start cfg (ictx i) v e with
   | None => (OBusy, e, g, v)
   | Some (v1, e1) =>
+      match iapi i, ipok v1 with
+      | ARun, false =>
+          (* activateCode(0, vm.ip, main) with a foreign vm.ip *)
+          (OWild, e1, g, mkVm (halt v1) false (startCount v1) 0 0 false)
+      | _, _ =>
       let '(v2, e2) :=
         match iapi i with
         | ARunCode => if 1 <? startCount v1 then reset_vm cfg v1 e1 else (v1, e1)
@@ -309,9 +318,13 @@ Definition run_inv (cfg : config) (e : env) (g : Z) (v : vm) (i : inv) : outcome
         | _ => eval cfg (halt v2) (ictx i) (ibody i) s0
         end in
       let o := outcome_of r in
+      (* Run: the REPL's protocol (SetIP to the end of the main code after an error) keeps vm.ip usable;
+         Call: the deferred resumeFrame restores vm.ip; RunCode: vm.ip is left inside its own code *)
+      let ok := match iapi i with ARunCode => false | _ => ipok v2 end in
       match r with
-      | RDiverge => (o, sE s1, sG s1, mkVm (halt v2) true (startCount v2) (sH s1) (sFP s1))
-      | _ => (o, sE s1, sG s1, mkVm (halt v2) false (startCount v2) (sH s1) (sFP s1))   (* deferred stop() *)
+      | RDiverge => (o, sE s1, sG s1, mkVm (halt v2) true (startCount v2) (sH s1) (sFP s1) ok)
+      | _ => (o, sE s1, sG s1, mkVm (halt v2) false (startCount v2) (sH s1) (sFP s1) ok)   (* deferred stop() *)
+      end
       end
   end.
 
@@ -334,6 +347,16 @@ Fixpoint exec (cfg : config) (e : env) (g : Z) (v : vm) (h : list item) : list o
         end
   end.
 
+(* outcomes and the global after each invocation (what the correspondence compares) *)
+Fixpoint exec_out (cfg : config) (e : env) (g : Z) (v : vm) (h : list item) : list (outcome * Z) :=
+  match h with
+  | [] => []
+  | IEnv x :: r => exec_out cfg (do_ev x e) g v r
+  | IInv i :: r =>
+      let '(o, e', g', v') := run_inv cfg e g v i in
+      (o, g') :: match o with ODiverge => [] | _ => exec_out cfg e' g' v' r end
+  end.
+
 (* the same invocation on a VM that was just created, same globals, same surroundings *)
 Definition fresh_outcome (cfg : config) (b : obs) : outcome :=
   let '(v0, e0) := new_vm cfg (o_env b) in
@@ -342,6 +365,9 @@ Definition fresh_outcome (cfg : config) (b : obs) : outcome :=
 (* a history on a new VM in an empty environment *)
 Definition exec0 (cfg : config) (g : Z) (h : list item) : list obs :=
   let '(v0, e0) := new_vm cfg env0 in exec cfg e0 g v0 h.
+
+Definition exec0_out (cfg : config) (g : Z) (h : list item) : list (outcome * Z) :=
+  let '(v0, e0) := new_vm cfg env0 in exec_out cfg e0 g v0 h.
 
 (* a static bound on how far evaluating e can raise the stack above where it starts *)
 Fixpoint hmax (e : expr) : nat :=
@@ -370,6 +396,6 @@ Definition differs (cfg : config) (b : obs) : bool :=
   | OErr x, OErr y => negb (match x, y with
                             | ERuntime, ERuntime | EHost, EHost | EStack, EStack | EFrames, EFrames | ECtx, ECtx => true
                             | _, _ => false end)
-  | OStale, OStale | OBusy, OBusy | ODiverge, ODiverge => false
+  | OStale, OStale | OBusy, OBusy | ODiverge, ODiverge | OWild, OWild => false
   | _, _ => true
   end.
